@@ -216,6 +216,12 @@ class Inliner:
     def resolve(self, caller: FuncInfo, call: ast.Call) -> FuncInfo | None:
         f = call.func
         target = None
+        if isinstance(f, ast.Name) and f.id in getattr(self, "_locals", {}):
+            node = self._locals[f.id]
+            if any(x is call for x in ast.walk(node)):
+                return None            # recursion
+            return FuncInfo(f"{caller.qual}.<local>{f.id}", caller.module,
+                            node, None)
         if isinstance(f, ast.Name):
             target = self.prog.functions.get(f"{caller.module.name}:{f.id}")
             if target is None:
@@ -351,17 +357,42 @@ class Inliner:
         new = clone(fi.node)
         changed = False
         self._introduced: set[str] = set()
+        # functions defined inside fi (closures): inlined at their call sites
+        # like helpers outside the inventory; free variables stay as they are
+        self._locals = {}
+        for st in ast.walk(new):
+            if st is not new and isinstance(st, ast.FunctionDef) and \
+                    f"{fi.qual}.<local>{st.name}" not in self.keep:
+                self._locals[st.name] = st
         for _ in range(MAX_ROUNDS):
             step = self._round(fi, new)
             changed |= step
             if not step:
                 break
+        if changed and self._locals:
+            self._drop_dead_locals(new)
         if not changed:
             return None
         split_tuple_assigns(new)
         ast.fix_missing_locations(new)
         set_parents(new)
         return new
+
+    def _drop_dead_locals(self, fn: ast.FunctionDef) -> None:
+        """Removes the `def` of a local function that is no longer referenced
+        (all its calls were inlined)."""
+        for name, node in self._locals.items():
+            refs = [x for x in ast.walk(fn) if isinstance(x, ast.Name)
+                    and x.id == name and not any(
+                        x is y for y in ast.walk(node))]
+            if refs:
+                continue
+            for holder in ast.walk(fn):
+                for f in ("body", "orelse", "finalbody"):
+                    lst = getattr(holder, f, None)
+                    if isinstance(lst, list) and any(x is node for x in lst):
+                        lst[:] = [x for x in lst if x is not node] or [
+                            ast.copy_location(ast.Pass(), node)]
 
     def _round(self, fi: FuncInfo, fn: ast.FunctionDef) -> bool:
         changed = False
@@ -1031,9 +1062,40 @@ def propagate_function_aliases(func: ast.FunctionDef,
     return True
 
 
+READER_PREFIXES = ("get_", "has_", "is_", "n_")
+
+
+def _only_read(func: ast.FunctionDef, recv: str, views: set[str]) -> bool:
+    """Every use of the parameter `recv` in func is an attribute read of a
+    view property / a reader method call (get_*, has_*, is_*), never a store,
+    a mutator call or a hand-over to another callable."""
+    for n in ast.walk(func):
+        if isinstance(n, ast.Name) and n.id == recv:
+            par = getattr(n, "_parent", None)
+            if not isinstance(n.ctx, ast.Load):
+                return False
+            if not isinstance(par, ast.Attribute) or par.value is not n:
+                # passed on / compared / iterated: only `is None` tests and
+                # truth tests are harmless
+                if isinstance(par, ast.Compare) and all(isinstance(
+                        o, (ast.Is, ast.IsNot)) for o in par.ops):
+                    continue
+                if isinstance(par, (ast.If, ast.IfExp, ast.BoolOp,
+                                    ast.UnaryOp)):
+                    continue
+                return False
+            if not isinstance(par.ctx, ast.Load):
+                return False
+            if par.attr in views or par.attr.startswith(READER_PREFIXES):
+                continue
+            return False
+    return True
+
+
 def eliminate_slot_aliases(func: ast.FunctionDef, selfname: str | None,
                            slots: set[str], rebound: set[str],
-                           view_props: set[str] = frozenset()) -> bool:
+                           view_props: set[str] = frozenset(),
+                           any_views: set[str] = frozenset()) -> bool:
     """``x = obj._slot`` (x bound once; obj a parameter or a local bound once;
     the slot not re-bound by this function or by anything it calls on obj)
     -> uses of x read obj._slot.  For ``self`` also ``x = self.view`` where
@@ -1053,6 +1115,11 @@ def eliminate_slot_aliases(func: ast.FunctionDef, selfname: str | None,
         if attr in rebound or "*" in rebound:
             continue
         if attr in slots or (recv == selfname and attr in view_props):
+            table[n.targets[0].id] = n.value
+            drop.add(id(n))
+        elif recv != selfname and attr in any_views and \
+                stores.get(recv, 0) <= 1 and _only_read(func, recv, any_views):
+            # x = other.view for a graph the function only reads
             table[n.targets[0].id] = n.value
             drop.add(id(n))
     if not table:
@@ -1410,14 +1477,134 @@ def loops_to_comprehensions(func: ast.FunctionDef) -> bool:
     return changed
 
 
+def dispatch_tables_to_if(func: ast.FunctionDef) -> bool:
+    """``table[a, b](args)`` at statement level, where `table` is a dict
+    literal (inline, or a local bound once and only ever subscripted) whose
+    keys are constants and whose key expression is made of pure boolean
+    tests, becomes the if / elif chain over the keys (no match: KeyError, as
+    the look-up would raise)."""
+    stores = _store_counts(func)
+    tables: dict[str, tuple[ast.Assign, ast.Dict]] = {}
+    for n in ast.walk(func):
+        if isinstance(n, ast.Assign) and len(n.targets) == 1 and isinstance(
+                n.targets[0], ast.Name) and isinstance(n.value, ast.Dict) \
+                and stores.get(n.targets[0].id) == 1:
+            tables[n.targets[0].id] = (n, n.value)
+    # the local must only be used as `name[...]`
+    for name in list(tables):
+        for x in ast.walk(func):
+            if isinstance(x, ast.Name) and x.id == name and isinstance(
+                    x.ctx, ast.Load):
+                par = getattr(x, "_parent", None)
+                if not (isinstance(par, ast.Subscript) and par.value is x
+                        and isinstance(par.ctx, ast.Load)):
+                    tables.pop(name, None)
+                    break
+
+    def boolean(e) -> bool:
+        if isinstance(e, ast.Compare):
+            return _pure(e)
+        if isinstance(e, ast.UnaryOp) and isinstance(e.op, ast.Not):
+            return _pure(e.operand)
+        if isinstance(e, ast.BoolOp):
+            return all(boolean(v) for v in e.values)
+        return False
+
+    changed = [False]
+    used: set[str] = set()
+
+    def rewrite(st):
+        if not (isinstance(st, ast.Expr) and isinstance(st.value, ast.Call)
+                and isinstance(st.value.func, ast.Subscript)):
+            return None
+        call = st.value
+        base = call.func.value
+        if isinstance(base, ast.Dict):
+            d, name = base, None
+        elif isinstance(base, ast.Name) and base.id in tables:
+            d, name = tables[base.id][1], base.id
+        else:
+            return None
+        key = call.func.slice
+        comps = list(key.elts) if isinstance(key, ast.Tuple) else [key]
+        if not comps or not all(boolean(c) for c in comps):
+            return None
+        rows = []
+        for k, v in zip(d.keys, d.values):
+            if k is None:
+                return None
+            try:
+                kv = ast.literal_eval(k)
+            except Exception:
+                return None
+            kv = kv if isinstance(key, ast.Tuple) else (kv,)
+            if not (isinstance(kv, tuple) and len(kv) == len(comps)
+                    and all(isinstance(x, bool) for x in kv)):
+                return None
+            if not _pure(v):
+                return None
+            rows.append((kv, v))
+        if not rows:
+            return None
+        chain: list[ast.stmt] = [ast.Raise(
+            exc=ast.Call(func=ast.Name("KeyError", ast.Load()), args=[],
+                         keywords=[]), cause=None)]
+        for kv, v in reversed(rows):
+            tests = [clone(c) if want else ast.UnaryOp(ast.Not(), clone(c))
+                     for c, want in zip(comps, kv)]
+            test = tests[0] if len(tests) == 1 else ast.BoolOp(
+                ast.And(), tests)
+            body = [ast.Expr(ast.Call(func=clone(v),
+                                      args=[clone(a) for a in call.args],
+                                      keywords=[clone(k_) for k_ in
+                                                call.keywords]))]
+            chain = [ast.If(test=test, body=body, orelse=chain)]
+        if name:
+            used.add(name)
+        changed[0] = True
+        return [ast.copy_location(chain[0], st)]
+
+    def walk(stmts):
+        out = []
+        for st in stmts:
+            for f in ("body", "orelse", "finalbody"):
+                sub = getattr(st, f, None)
+                if isinstance(sub, list) and sub and isinstance(
+                        sub[0], ast.stmt):
+                    setattr(st, f, walk(sub))
+            for h in getattr(st, "handlers", []) or []:
+                h.body = walk(h.body)
+            rep = rewrite(st)
+            out.extend(rep if rep is not None else [st])
+        return out
+
+    func.body = walk(func.body)
+    if changed[0]:
+        # a table that is no longer read disappears
+        drop = set()
+        for name in used:
+            still = [x for x in ast.walk(func) if isinstance(x, ast.Name)
+                     and x.id == name and isinstance(x.ctx, ast.Load)]
+            if not still:
+                drop.add(id(tables[name][0]))
+        if drop:
+            _drop_and_subst(func, {}, drop)
+        ast.fix_missing_locations(func)
+        set_parents(func)
+    return changed[0]
+
+
 def canonicalise(func: ast.FunctionDef, selfname: str | None = None,
                  slots: set[str] = frozenset(),
                  rebound: set[str] = frozenset(),
                  module_funcs: set[str] = frozenset(),
                  view_props: set[str] = frozenset(),
+                 any_views: set[str] = frozenset(),
                  ) -> tuple[ast.FunctionDef, bool]:
     new = clone(func)
-    ch = flatten_else_after_exit(new)
+    set_parents(new)
+    ch = dispatch_tables_to_if(new)
+    ch |= flatten_else_after_exit(new)
     c = _Canon()
     new = c.visit(new)
     ch |= c.changed
@@ -1425,7 +1612,9 @@ def canonicalise(func: ast.FunctionDef, selfname: str | None = None,
     ch |= loops_to_comprehensions(new)
     ch |= propagate_constants(new)
     ch |= propagate_function_aliases(new, module_funcs)
-    ch |= eliminate_slot_aliases(new, selfname, slots, rebound, view_props)
+    set_parents(new)
+    ch |= eliminate_slot_aliases(new, selfname, slots, rebound, view_props,
+                                 any_views)
     ch |= inline_return_temps(new)
     ch |= inline_single_use_temps(new)
     ch |= inline_pure_temps(new)
@@ -1677,6 +1866,11 @@ def normalise_program(prog, *, inline: bool = True,
     for ci in prog.classes.values():
         all_slots |= set(ci.slots or ())
     view_props = _view_properties(prog) if canonical else {}
+    any_views: set[str] = set()
+    for c_, ps_ in view_props.items():
+        if c_ in ("MolGraph", "StereoMolGraph", "CondensedReactionGraph",
+                  "StereoCondensedReactionGraph"):
+            any_views |= ps_
     def process(q):
         fi = prog.functions[q]
         node = fi.node
@@ -1685,7 +1879,10 @@ def normalise_program(prog, *, inline: bool = True,
             if t_new is not None:
                 fi.node = node = t_new
                 touched.add(q)
-        new = inl.run(fi) if inline and report["new_functions"] else None
+        has_local = any(n is not fi.node and isinstance(n, ast.FunctionDef)
+                        for n in ast.walk(fi.node))
+        new = inl.run(fi) if inline and (
+            report["new_functions"] or has_local) else None
         if new is not None:
             node = new
         if unroll_loops:
@@ -1704,7 +1901,7 @@ def normalise_program(prog, *, inline: bool = True,
             mfuncs = {f.name for f in prog.functions.values()
                       if f.module is fi.module and f.cls is None}
             u, ch = canonicalise(node, selfname, all_slots, rebound, mfuncs,
-                                 vprops)
+                                 vprops, any_views)
             if ch:
                 node = u
                 if q not in report["canonicalised"]:
